@@ -325,6 +325,9 @@ fn get_filename_from_diff_header_line_file_path(path: &str) -> Option<&str> {
 }
 
 fn parse_diff_header_line(line: &str, git_diff_name: bool) -> (String, FileEvent) {
+    // Like the paths of the ---/+++ lines, the paths of rename/copy lines are quoted by git
+    // when they contain e.g. non-ASCII characters; they have no a/ b/ prefix.
+    let unquoted = |path: &str| remove_surrounding_quotes(path).to_string();
     match line {
         line if line.starts_with("--- ") || line.starts_with("+++ ") => {
             let offset = 4;
@@ -332,16 +335,16 @@ fn parse_diff_header_line(line: &str, git_diff_name: bool) -> (String, FileEvent
             (file, FileEvent::Change)
         }
         line if line.starts_with("rename from ") => {
-            (line[12..].to_string(), FileEvent::Rename) // "rename from ".len()
+            (unquoted(&line[12..]), FileEvent::Rename) // "rename from ".len()
         }
         line if line.starts_with("rename to ") => {
-            (line[10..].to_string(), FileEvent::Rename) // "rename to ".len()
+            (unquoted(&line[10..]), FileEvent::Rename) // "rename to ".len()
         }
         line if line.starts_with("copy from ") => {
-            (line[10..].to_string(), FileEvent::Copy) // "copy from ".len()
+            (unquoted(&line[10..]), FileEvent::Copy) // "copy from ".len()
         }
         line if line.starts_with("copy to ") => {
-            (line[8..].to_string(), FileEvent::Copy) // "copy to ".len()
+            (unquoted(&line[8..]), FileEvent::Copy) // "copy to ".len()
         }
         line if line.starts_with("new file mode ") => {
             (line[14..].to_string(), FileEvent::Added) // "new file mode ".len()
